@@ -305,6 +305,19 @@ func FlatCodec(fn *ssa.Function) []CodecOp {
 				kind, write, ok = csNested(ci)
 				operand = -1
 				if !ok {
+					// an unclassified module helper that is handed this codec's stream (a loop body or a
+					// few reads/writes extracted into a function): its operations are part of this codec
+					if callee := ci.Common().StaticCallee(); callee != nil && len(callee.Blocks) > 0 && flatDepth < 3 &&
+						callee.Pkg != nil && callee.Pkg == fn.Pkg && !isCodecMethodName(callee.Name()) && passesStream(fn, ci.Common().Args) {
+						flatDepth++
+						inner := FlatCodec(callee)
+						flatDepth--
+						for _, io := range inner {
+							io.Field = "" // the helper's operands are not fields of this receiver
+							out = append(out, io)
+							blocks = append(blocks, b)
+						}
+					}
 					continue
 				}
 			}
